@@ -27,6 +27,9 @@ CONSTANTS Contribs,      \* set of contribution ids
           NComp,         \* [Contribs -> 1..k] number of components
           Kind,          \* [Contribs -> {"std", "noassign"}]
           Order,         \* [Contribs -> Nat] evaluation order (clouds 3, others 5)
+          Shared,        \* [Contribs -> BOOLEAN] prepare_each re-uses ONE work array for all its components (CIA)
+          TotalKind,     \* "own": Contribution.prepare accumulates the total in its own array (as built)
+                         \* "alias": the total starts out AS the first yielded array and later ones are added in place
           MaxVer,        \* bound on parameter changes
           MaxLate        \* how many contributions may be added after build() (they are not re-sorted)
 
@@ -67,7 +70,10 @@ Init == /\ ver = 1
 Built == ListOf(added, nlate)
 
 \* ---- Contribution.prepare(c): loop over prepare_each, then sigma_xsec := sum
-Prepared(c) == [comp |-> Sum, ver |-> ver]
+\* with an aliased total and a shared work array the total IS the work array: when the second component is
+\* written into it the running sum is wiped, and adding "it to itself" leaves twice the last component
+Prepared(c) == IF TotalKind = "alias" /\ Shared[c] /\ NComp[c] > 1 THEN [comp |-> NComp[c], ver |-> ver]
+               ELSE [comp |-> Sum, ver |-> ver]
 \* ---- one step of the prepare_each generator of c, about to yield component k
 Yielded(c, k) == IF Kind[c] = "std" THEN [comp |-> k, ver |-> ver] ELSE buf[c]
 \* ---- path_integral: every contribution of the current list reads its buffer
